@@ -119,7 +119,15 @@ MESSAGES = ["boom", "", "two\nlines", "trailing newline\n", "Ünïcödé ✓ mes
             "closing </info> only", "mis <info>nested</comment> tags", "bad <fg=nosuchcolour>colour</>",
             "lone < sign and > too", "escaped \\<b> tag", "percent %s {braces}", "x" * 300,
             "The \"--</error>\" option does not exist.", "<error>already styled</error>", "tab\there", "escaped \\</info> closing tag",
-            "never closed <fg=chartreuse> colour", "<bg=nope>", "option <options=sparkle> unknown"]
+            "never closed <fg=chartreuse> colour", "<bg=nope>", "option <options=sparkle> unknown",
+            "<info>valid tag left open", "<comment>still open"]
+
+
+def interacting_pair(r):
+    """(earlier message, later message): the first leaves a valid tag open, the second closes it -
+    harmless apart, confusing for anything that keeps formatter state from one report to the next."""
+    t = r.pick(["info", "comment", "error", "b", "question"])
+    return "<%s>left open by an earlier report" % t, r.pick(["x </%s> y", "closing </%s> only", "<b>bold</%s>"]) % t
 
 TYPES = ["ValueError", "KeyError", "RuntimeError", "OSError", "AssertionError", "UnicodeDecodeError",
          "Foreign", "WithIntCode", "WithStrCode", "WithZeroCode", "WithFalseCode", "WithHugeCode", "StrRaises", "CliKitLike", "NoSuchOption", "CannotParse",
